@@ -9,7 +9,7 @@
    string values that look like a typed value ("int:..", "float:..", "bool:true/false" in any
    case, "NoneType:") and a first parameter named "json". *)
 From Common Require Import Prelude.
-From C19 Require Import Model Lemmas.
+From C19 Require Import Model Lemmas Reader.
 Open Scope Z_scope.
 
 Theorem roundtrip_partial :
@@ -57,3 +57,16 @@ Theorem reassembly_chunking_independent :
   forall st chunks, rfeed_chunks st chunks = rfeed st (concat chunks).
 Proof. exact reassembly_chunking_independent_l. Qed.
 Print Assumptions reassembly_chunking_independent.
+
+(* every framed message (line without newline and without the "&bytes=" marker, optional payload of any
+   bytes) comes out exactly once, in the order sent, with its payload, whatever follows it *)
+Theorem dispatch_in_order :
+  forall ms, Forall wf_msg ms -> rfeed (RLine []) (flat_map frame ms) = (RLine [], ms).
+Proof. exact dispatch_in_order_l. Qed.
+Print Assumptions dispatch_in_order.
+
+Theorem reassembly_in_order :
+  forall ms chunks, Forall wf_msg ms -> concat chunks = flat_map frame ms ->
+    rfeed_chunks (RLine []) chunks = (RLine [], ms).
+Proof. exact reassembly_in_order_l. Qed.
+Print Assumptions reassembly_in_order.
